@@ -2,27 +2,35 @@ import NibabelModel.Model.C17
 import NibabelModel.Lemmas.C17
 import NibabelModel.Generated.C17Codes
 import NibabelModel.Lemmas.C17_Writer
+import NibabelModel.Lemmas.C17_GenTables
 /-! Props/C17 — property theorems for C17 "GIFTI images round-trip through XML for every encoding".
 
-    Proved for ALL lists / event streams / shapes (no bound):
-      container   : remove_by_intent_is_filter, remove_by_intent_spec, select_is_filter, select_remove_partition,
-                    remove_by_position, remove_by_position_error, add_appends, agg_selects_filter, agg_tuple_order,
-                    original defect: orig_remove_skips_adjacent, removeByIntentOrig_counterexample,
-                    orig_loop_characterisation, orig_correct_iff_no_adjacent
+    Proved for ALL lists / event streams / shapes / images (no bound):
+      container   : substantive — orig_loop_characterisation, orig_correct_iff_no_adjacent (the pinned defect),
+                    agg_code_zero_filters, agg_tuple_args, intent_forms_agree + intent_aliases_pinned (regenerated tables);
+                    definitional (facts about List.filter/++/eraseIdx, labelled so): remove_by_intent_is_filter,
+                    remove_by_intent_spec, select_is_filter, select_remove_partition, remove_by_position(+_error),
+                    add_appends, agg_selects_filter, agg_tuple_order, intent_arg_methods;
+                    witnesses: orig_remove_skips_adjacent, removeByIntentOrig_counterexample
       parser      : chunking_independent, rechunk_text_node
-      data block  : elem_roundtrip, buffer_roundtrip, order_roundtrip, base64_block_roundtrip, codes_pinned,
-                    base64_block_roundtrip_gifti (instantiated for the regenerated tables),
-                    base64_block_roundtrip_any_memory_order, writer_bytes_memory_order_independent
+      data block  : elem_roundtrip, buffer_roundtrip, order_roundtrip, base64_block_roundtrip (Base64 encodings ONLY;
+                    formerly data_block_roundtrip), codes_pinned, base64_block_roundtrip_gifti (regenerated tables),
+                    base64_block_roundtrip_any_memory_order, writer_bytes_memory_order_independent (assumption-restating)
+      whole image : image_xml_roundtrip (writer element tree → handler calls → parser = the image, any chunking, under
+                    the explicit ElementTree/expat contract), image_xml_roundtrip_gifti + writer_names_parse_back
+                    (regenerated tables), image_data_base64 (the data hypothesis is a theorem for Base64)
 
     PARTIAL (external, enter as hypotheses/parameters, checked only by the oracle on the real code):
-      expat / ElementTree (escaping, which handler calls are made), base64, zlib, ASCII number printing/parsing. -/
+      expat / ElementTree (escaping, which handler calls are made — contract in Model/C17 `imgEvents`), base64, zlib,
+      ASCII number printing/parsing ('%10.6f', '%d', str(float), np.loadtxt): ASCII data blocks and the coordinate
+      matrix come back as whatever the external parser makes of the printed text (hypotheses `WDArr.Ok.mt/.data`). -/
 namespace Nb.C17
 
 /-! ## container operations -/
 
 /-- `remove_gifti_data_array_by_intent` (repaired logic): the result is THE list that keeps the order of the
     image (sublist), contains no array of the intent, and contains every other array with its full multiplicity —
-    i.e. all and only the named arrays are removed. -/
+    i.e. all and only the named arrays are removed. [DEFINITIONAL: the model definition is the Python one-liner; this is a fact about `List.filter` / `++` / `eraseIdx` spelling out what that one-liner means — the tie to the code is the `hist` correspondence stream] -/
 theorem remove_by_intent_is_filter (l : List DA) (it : Nat) (r : List DA) :
     (r.Sublist l ∧ (∀ d ∈ r, d.intent ≠ it) ∧ (∀ d, d.intent ≠ it → r.count d = l.count d))
       ↔ r = removeByIntent l it := by
@@ -37,7 +45,7 @@ theorem remove_by_intent_is_filter (l : List DA) (it : Nat) (r : List DA) :
 example : removeByIntent [⟨0, 5⟩, ⟨1, 5⟩, ⟨2, 6⟩, ⟨3, 5⟩, ⟨4, 5⟩] 5 = [⟨2, 6⟩] := by decide
 
 /-- membership form: an array is in the result iff it was in the image and has another intent; nothing is added;
-    the number removed is the number of matches -/
+    the number removed is the number of matches [DEFINITIONAL: the model definition is the Python one-liner; this is a fact about `List.filter` / `++` / `eraseIdx` spelling out what that one-liner means — the tie to the code is the `hist` correspondence stream] -/
 theorem remove_by_intent_spec (l : List DA) (it : Nat) :
     (∀ d, d ∈ removeByIntent l it ↔ d ∈ l ∧ d.intent ≠ it) ∧
     (removeByIntent l it).length + (getArraysFromIntent l it).length = l.length := by
@@ -77,7 +85,7 @@ theorem orig_correct_iff_no_adjacent (l : List DA) (it : Nat) (h : l.Nodup) :
 
 example : NoAdjacent (fun d : DA => d.intent == 5) [⟨0, 5⟩, ⟨1, 6⟩, ⟨2, 5⟩] := by simp [NoAdjacent]
 
-/-- `get_arrays_from_intent`: the result is THE sublist (image order) of all and only the arrays of the intent -/
+/-- `get_arrays_from_intent`: the result is THE sublist (image order) of all and only the arrays of the intent [DEFINITIONAL: the model definition is the Python one-liner; this is a fact about `List.filter` / `++` / `eraseIdx` spelling out what that one-liner means — the tie to the code is the `hist` correspondence stream] -/
 theorem select_is_filter (l : List DA) (it : Nat) (r : List DA) :
     (r.Sublist l ∧ (∀ d ∈ r, d.intent = it) ∧ (∀ d, d.intent = it → r.count d = l.count d))
       ↔ r = getArraysFromIntent l it := by
@@ -91,7 +99,7 @@ theorem select_is_filter (l : List DA) (it : Nat) (r : List DA) :
 
 example : getArraysFromIntent [⟨0, 5⟩, ⟨1, 6⟩, ⟨2, 5⟩] 5 = [⟨0, 5⟩, ⟨2, 5⟩] := by decide
 
-/-- selecting and removing by the same intent split the image: every array is in exactly one of the two -/
+/-- selecting and removing by the same intent split the image: every array is in exactly one of the two [DEFINITIONAL: the model definition is the Python one-liner; this is a fact about `List.filter` / `++` / `eraseIdx` spelling out what that one-liner means — the tie to the code is the `hist` correspondence stream] -/
 theorem select_remove_partition (l : List DA) (it : Nat) (d : DA) :
     l.count d = (getArraysFromIntent l it).count d + (removeByIntent l it).count d := by
   unfold getArraysFromIntent removeByIntent
@@ -101,7 +109,7 @@ theorem select_remove_partition (l : List DA) (it : Nat) (d : DA) :
     by_cases h : a.intent = it <;> simp [List.filter_cons, h, List.count_cons] at ih ⊢ <;> omega
 
 /-- `remove_gifti_data_array(ith)` with a valid Python index removes exactly position `ith mod n`:
-    the arrays before it stay at their index, the arrays after it move up by one -/
+    the arrays before it stay at their index, the arrays after it move up by one [DEFINITIONAL: the model definition is the Python one-liner; this is a fact about `List.filter` / `++` / `eraseIdx` spelling out what that one-liner means — the tie to the code is the `hist` correspondence stream] -/
 theorem remove_by_position (l : List DA) (i : Int) (h : -(l.length : Int) ≤ i ∧ i < l.length) :
     ∃ r, removeAt l i = .ok r ∧ r.length + 1 = l.length ∧
       (∀ j, j < (i % (l.length : Int)).toNat → r[j]? = l[j]?) ∧
@@ -123,7 +131,7 @@ theorem remove_by_position (l : List DA) (i : Int) (h : -(l.length : Int) ≤ i 
 
 example : removeAt [⟨0, 5⟩, ⟨1, 6⟩, ⟨2, 5⟩] (-1) = .ok [⟨0, 5⟩, ⟨1, 6⟩] := by rfl
 
-/-- … and an index outside `[-n, n)` is refused (IndexError), the image is not touched -/
+/-- … and an index outside `[-n, n)` is refused (IndexError), the image is not touched [DEFINITIONAL: the model definition is the Python one-liner; this is a fact about `List.filter` / `++` / `eraseIdx` spelling out what that one-liner means — the tie to the code is the `hist` correspondence stream] -/
 theorem remove_by_position_error (l : List DA) (i : Int) (h : i < -(l.length : Int) ∨ (l.length : Int) ≤ i) :
     removeAt l i = .error .index := by
   unfold removeAt
@@ -132,7 +140,7 @@ theorem remove_by_position_error (l : List DA) (i : Int) (h : i < -(l.length : I
 
 example : removeAt [⟨0, 5⟩] 1 = .error .index := by rfl
 
-/-- `add_gifti_data_array`: every array keeps its position, the new one is last -/
+/-- `add_gifti_data_array`: every array keeps its position, the new one is last [DEFINITIONAL: the model definition is the Python one-liner; this is a fact about `List.filter` / `++` / `eraseIdx` spelling out what that one-liner means — the tie to the code is the `hist` correspondence stream] -/
 theorem add_appends (l : List DA) (d : DA) :
     (addArray l d).length = l.length + 1 ∧ (∀ j, j < l.length → (addArray l d)[j]? = l[j]?) ∧
       (addArray l d)[l.length]? = some d := by
@@ -140,7 +148,7 @@ theorem add_appends (l : List DA) (d : DA) :
   simp [addArray, List.getElem?_append_left hj]
 
 /-- `agg_data(code)`: the arrays aggregated are exactly those `get_arrays_from_intent` names (all arrays when no
-    code is given), in image order; they are column-stacked iff there is at least one and all are time series -/
+    code is given), in image order; they are column-stacked iff there is at least one and all are time series [DEFINITIONAL: the model definition is the Python one-liner; this is a fact about `List.filter` / `++` / `eraseIdx` spelling out what that one-liner means — the tie to the code is the `hist` correspondence stream] -/
 theorem agg_selects_filter (ts : Nat) (l : List DA) (code : Option Nat) :
     (aggOne ts l code).ids = (aggSel l code).map (·.id) ∧
     ((∃ ids, aggOne ts l code = .stack ids) ↔ (aggSel l code ≠ [] ∧ ∀ d ∈ aggSel l code, d.intent = ts)) ∧
@@ -171,7 +179,7 @@ theorem agg_selects_filter (ts : Nat) (l : List DA) (code : Option Nat) :
 
 example : aggOne 7 [⟨0, 7⟩, ⟨1, 5⟩, ⟨2, 7⟩] (some 7) = .stack [0, 2] := by decide
 
-/-- `agg_data((c₁,…,cₖ))`: one result per requested code, in the order requested -/
+/-- `agg_data((c₁,…,cₖ))`: one result per requested code, in the order requested [DEFINITIONAL: the model definition is the Python one-liner; this is a fact about `List.filter` / `++` / `eraseIdx` spelling out what that one-liner means — the tie to the code is the `hist` correspondence stream] -/
 theorem agg_tuple_order (ts : Nat) (l : List DA) (codes : List Nat) :
     (aggTuple ts l codes).map Agg.ids = codes.map (fun c => (getArraysFromIntent l c).map (·.id)) := by
   simp only [aggTuple, List.map_map]
@@ -283,7 +291,7 @@ theorem base64_block_roundtrip (K : Codes) (hK : K.Distinct) (X : Ext) (b64enc :
 /-- the round trip does not depend on the byte order the array has IN MEMORY when it is written (arrays loaded
     from a document that declared the other endianness, user-supplied non-native data): for every memory order
     `memBig`, writing the memory image of `elems` and reading it back (declared order = machine order `big`)
-    returns `elems`. -/
+    returns `elems`. [ASSUMPTION-RESTATING: holds by construction of `writeDataBlockMem` / `writerBytes`, which MODEL `np.asanyarray(data, dtype)` as conversion by value; that this is what the code does is checked by the `wblock` correspondence stream and the oracle, not proved] -/
 theorem base64_block_roundtrip_any_memory_order (K : Codes) (hK : K.Distinct) (X : Ext) (b64enc : List Nat → Text)
     (deflate : List Nat → List Nat) (hX : CodecContract X b64enc deflate)
     (gz big col memBig : Bool) (dt w : Nat) (kind : Char)
@@ -298,7 +306,7 @@ theorem base64_block_roundtrip_any_memory_order (K : Codes) (hK : K.Distinct) (X
   · exact base64_block_roundtrip K hK X b64enc deflate hX gz big col dt w kind hdt hw shape elems hlen hr
 
 /-- … and the bytes written are the same whatever the memory order (so a big-endian array in memory is NOT
-    written raw under the machine's declared order) -/
+    written raw under the machine's declared order) [ASSUMPTION-RESTATING: holds by construction of `writeDataBlockMem` / `writerBytes`, which MODEL `np.asanyarray(data, dtype)` as conversion by value; that this is what the code does is checked by the `wblock` correspondence stream and the oracle, not proved] -/
 theorem writer_bytes_memory_order_independent (big col : Bool) (w : Nat) (hw : 0 < w) (shape elems : List Nat)
     (hr : ∀ v ∈ elems, v < 256 ^ w) (m1 m2 : Bool) :
     writerBytes big w col shape m1 (toBytes m1 w elems) = writerBytes big w col shape m2 (toBytes m2 w elems) := by
@@ -362,8 +370,10 @@ example :
     XML attribute) back to the code.  Complete check of the generated table, not a sample. -/
 theorem intent_forms_agree : ∀ c ∈ Gen.codes.intentCodes,
     lookup Gen.codes.intent (nameOf Gen.names.intent c) = some c ∧ resolveIntent Gen.codes (.code c) = some c ∧
-    resolveIntent Gen.codes (.name (nameOf Gen.names.intent c)) = some c := by
-  decide +kernel
+    resolveIntent Gen.codes (.name (nameOf Gen.names.intent c)) = some c := fun c hc =>
+  ⟨gen_intent_names c hc, resolveIntentIn_code _ _ c hc, (resolveIntent_name Gen.codes _).trans (gen_intent_names c hc)⟩
+
+example : (0 : Nat) ∈ Gen.codes.intentCodes := by decide
 
 /-- the standard names the harness passes (typed there independently of nibabel) are aliases of the standard codes
     in the regenerated table; 0 is an intent code; `GiftiDataArray()` defaults to it -/
@@ -474,8 +484,8 @@ theorem writer_names_parse_back :
         lookup Gen.codes.encoding (nameOf Gen.names.encoding c) = some c) ∧
     (∀ c ∈ [Gen.codes.endBig, Gen.codes.endLittle], lookup Gen.codes.endian (nameOf Gen.names.endian c) = some c) ∧
     (∀ c ∈ Gen.names.xform.map (·.1), nameOf Gen.names.xform c ≠ [] ∧
-        lookup Gen.codes.xform (strip (nameOf Gen.names.xform c)) = some c) := by
-  decide +kernel
+        lookup Gen.codes.xform (strip (nameOf Gen.names.xform c)) = some c) :=
+  gen_writer_names
 
 /-- `image_xml_roundtrip` over the REGENERATED tables: the table hypotheses are discharged by computation
     (`intent_forms_agree`, `writer_names_parse_back`); what remains are conditions on the image itself and the two
@@ -497,5 +507,23 @@ theorem image_xml_roundtrip_gifti (X : Ext) (w : WImg) (ext : List (List (List N
     hs, hn, (n5 _ hT.ds).1, (n5 _ hT.ds).2, (n5 _ hT.xs).1, (n5 _ hT.xs).2, hne, hmt, hdata⟩
 
 
+
+/-- non-vacuity of `image_xml_roundtrip_gifti` / `image_xml_roundtrip` (`WImg.Ok` is satisfiable): the concrete image
+    `exW` of Lemmas/C17_Writer over the regenerated tables — XML-special and non-ASCII metadata, a coloured label, one
+    Base64Binary int32 array with extreme bit patterns, a Talairach coordinate system — with a concrete codec -/
+example : run Gen.codes exX (imgEvents Gen.names exW)
+      = .ok (some (exW.parsed [([[7, 7], [7, 7]], ⟨8, [2], [1, 4294967295]⟩)])) := by
+  refine image_xml_roundtrip_gifti exX exW _ (by unfold MD.Stripped; decide +kernel) (by decide +kernel)
+    (by decide +kernel) rfl ?_ _ rfl
+  intro t ht
+  have : t = (exD, ([[7, 7], [7, 7]], ⟨8, [2], [1, 4294967295]⟩)) := by simpa [exW] using ht
+  subst this
+  exact ⟨⟨by decide +kernel, by decide +kernel, by decide +kernel, by decide +kernel, by decide +kernel,
+    by decide +kernel, by decide +kernel⟩, by unfold MD.Stripped; decide +kernel, by decide +kernel, by decide +kernel,
+    by rfl, by rfl⟩
+
+/-- non-vacuity of `image_data_base64`: the data hypothesis of the example image is an instance of the theorem -/
+example : exD.dataText ≠ [] ∧ exD.dataText = writeDataBlock (fun b => b.map Char.ofNat) id false false 4 false exD.dims [1, 4294967295] :=
+  ⟨by decide +kernel, rfl⟩
 
 end Nb.C17
